@@ -18,8 +18,17 @@ OBJS := $(LIB_OBJS) $(SIM_OBJS) $(DOM_OBJS)
 
 all: $(B)/crabsim
 
-$(B)/crabsim: $(OBJS)
-	$(CXX) -o $@ $(OBJS) $(LDLIBS)
+# crab's library sources go into a static archive that is linked AFTER the
+# harness objects, exactly like the shipped configuration (libCrab.a): a few
+# functions of crab are defined both inline in a header and out of line in lib/
+# (e.g. trim_interval for dis_interval), and with an archive the linker keeps the
+# header's definition like it does for crab's own tests and clients.
+$(B)/libCrab.a: $(LIB_OBJS)
+	rm -f $@
+	ar rcs $@ $(LIB_OBJS)
+
+$(B)/crabsim: $(SIM_OBJS) $(DOM_OBJS) $(B)/libCrab.a
+	$(CXX) -o $@ $(SIM_OBJS) $(DOM_OBJS) $(B)/libCrab.a $(LDLIBS)
 
 $(B)/lib/%.o: $(REPO)/lib/%.cpp
 	@mkdir -p $(dir $@)
